@@ -231,6 +231,88 @@ theorem set_good {w : World} {es : List Expr} {τs : List CedarType} {τ : Cedar
     obtain ⟨t, ht, hvt⟩ := forall2_mem_l hall v (mkSet_subset vs v hv)
     exact (lubAll_spec h hne).1 t ht v hvt
 
+/-! ### set literals of flat elements (any mode) -/
+
+theorem lub_never_l' {m : ValidationMode} {b c : CedarType} (h : lub m .never b = some c) : c = b := by
+  rw [lub.eq_def] at h
+  simp [isSubtype] at h
+  exact h.symm
+
+theorem foldl_lub_none' {m : ValidationMode} (ts : List CedarType) :
+    ts.foldl (fun acc t => acc.bind (fun a => lub m a t)) none = none := by
+  induction ts with
+  | nil => rfl
+  | cons t ts ih => simpa using ih
+
+theorem foldl_lub_flat_spec {m : ValidationMode} : ∀ (ts : List CedarType) (acc τ : CedarType),
+    ts.foldl (fun acc t => acc.bind (fun a => lub m a t)) (some acc) = some τ →
+    acc.flat = true → acc ≠ .never → (∀ t, t ∈ ts → t.flat = true ∧ t ≠ .never) →
+    (∀ v, InstanceOfType v acc → InstanceOfType v τ) ∧ (∀ t, t ∈ ts → ∀ v, InstanceOfType v t → InstanceOfType v τ) ∧
+    τ.flat = true ∧ τ ≠ .never
+  | [], acc, τ, h, hf, hn, _ => by
+    simp only [List.foldl_nil, Option.some.injEq] at h
+    subst h
+    exact ⟨fun v hv => hv, fun t ht => (by cases ht), hf, hn⟩
+  | t :: ts, acc, τ, h, hf, hn, hall => by
+    simp only [List.foldl_cons, Option.bind_some] at h
+    cases hl : lub m acc t with
+    | none => rw [hl, foldl_lub_none'] at h; cases h
+    | some acc' =>
+      rw [hl] at h
+      obtain ⟨hlt, hle, hshape, _⟩ := lub_flat hl (Or.inl hf)
+      obtain ⟨htf, htn⟩ := hall t List.mem_cons_self
+      have hf' : acc'.flat = true := by
+        rcases hshape with rfl | rfl | rfl
+        · exact hf
+        · exact htf
+        · rfl
+      have hn' : acc' ≠ .never := by
+        rcases hshape with rfl | rfl | rfl
+        · exact hn
+        · exact htn
+        · intro h; cases h
+      obtain ⟨h1, h2, h3, h4⟩ := foldl_lub_flat_spec ts acc' τ h hf' hn' (fun t' ht' => hall t' (List.mem_cons_of_mem _ ht'))
+      refine ⟨fun v hv => h1 v (hlt v hv), ?_, h3, h4⟩
+      intro t' ht' v hv
+      rcases List.mem_cons.mp ht' with rfl | ht'
+      · exact h1 v (hle v hv)
+      · exact h2 t' ht' v hv
+
+theorem flat_mono {τ : CedarType} (hf : τ.flat = true) (hn : τ ≠ .never) : τ.mono = true := by
+  cases τ <;> simp [CedarType.flat] at hf <;> first | rfl | exact (hn rfl).elim
+
+/-- `lubAll` (any mode) of a non-empty list of flat types other than `Never` -/
+theorem lubAll_flat_spec {m : ValidationMode} {ts : List CedarType} {τ : CedarType} (h : lubAll m ts = some τ) (hne : ts ≠ [])
+    (hall : ∀ t, t ∈ ts → t.flat = true ∧ t ≠ .never) :
+    (∀ t, t ∈ ts → ∀ v, InstanceOfType v t → InstanceOfType v τ) ∧ τ.mono = true := by
+  cases ts with
+  | nil => exact (hne rfl).elim
+  | cons t ts =>
+    unfold lubAll at h
+    simp only [List.foldl_cons, Option.bind_some] at h
+    cases hl : lub m .never t with
+    | none => rw [hl, foldl_lub_none'] at h; cases h
+    | some acc =>
+      rw [hl] at h
+      have := lub_never_l' hl; subst this
+      obtain ⟨htf, htn⟩ := hall acc List.mem_cons_self
+      obtain ⟨h1, h2, h3, h4⟩ := foldl_lub_flat_spec ts acc τ h htf htn (fun t' ht' => hall t' (List.mem_cons_of_mem _ ht'))
+      refine ⟨?_, flat_mono h3 h4⟩
+      intro t' ht' v hv
+      rcases List.mem_cons.mp ht' with rfl | ht'
+      · exact h1 v hv
+      · exact h2 t' ht' v hv
+
+theorem set_good_flat {m : ValidationMode} {w : World} {es : List Expr} {τs : List CedarType} {τ : CedarType}
+    (hl : ListGood w es τs) (hne : τs ≠ []) (hall : ∀ t, t ∈ τs → t.flat = true ∧ t ≠ .never)
+    (h : lubAll m τs = some τ) : Good w (.set es) (.set (some τ)) [] := by
+  rcases hl with ⟨err, he, hp⟩ | ⟨vs, hvs, hinst⟩
+  · exact Good.err (by simp [evaluate, he]) hp
+  · refine Good.value (v := .set (Value.mkSet vs)) (by simp [evaluate, hvs]) (.set _ _ ?_)
+    intro v hv
+    obtain ⟨t, ht, hvt⟩ := forall2_mem_l hinst v (mkSet_subset vs v hv)
+    exact (lubAll_flat_spec h hne hall).1 t ht v hvt
+
 /-! ### record literals -/
 
 theorem insertKV_mem {α : Type} {k : String} {v : α} : ∀ {l : List (String × α)} {x : String × α},
